@@ -115,6 +115,13 @@ def trip(cfg, seed):
         os.remove(path)
         if cfg['replayPath'] == 'other':
             target['path'] = other
+        pre = cfg.get('pre', 'absent')
+        if cfg['role'] == 'input' and pre != 'absent':
+            # something is already at the path the replayed call names
+            there = {'sameSizeOtherBytes': bytes(bytearray(b ^ 0x5a for b in bytearray(content))),
+                     'shorter': content[:len(content) // 2], 'identical': content}[pre]
+            with real_open(target['path'], 'wb') as f:
+                f.write(there)
         tr2 = TapeRecorder(fetcher)
         # replay with the class as rebuilt around the replaying recorder is not needed: decorators consult `tr`
         tr.tape_cassette = fetcher
@@ -189,7 +196,7 @@ def run(rep, tier, seed):
     rep.rule = ('terminal states of spec/FileHandler.tla = size class (empty, placeholder-length, limit-1, limit, limit+1 '
                 'byte, well above) x content class x limit source (explicit = 1024 bytes, environment variable = 1 MiB, '
                 '3 MiB in the thorough tier so that files larger than 1 MiB are below the limit) x input / output handler x '
-                'path by position / keyword x cassette type x replay path (same / another path); each is one full trip '
+                'path by position / keyword x cassette type x replay path (same / another path) x what is already at that path (nothing, other bytes of the same size, a shorter file, the same bytes); each is one full trip '
                 'recorder -> cassette -> fetch -> replay on the real handlers with a spy on open(); oracle: placeholder iff '
                 'size > limit, above-limit files never opened for reading, byte-identical restore at the path named by the '
                 'replayed call (inputs) / in the holder (outputs). non-trivial = every trip; distinct = configuration')
@@ -200,7 +207,8 @@ def run(rep, tier, seed):
                   Contents={'emptyBytes', 'binary', 'newlines', 'placeholderText', 'random', 'base64ish'},
                   LimitSrcs={'explicit', 'env', 'envbig'},
                   Roles={'input', 'output'}, PathBys={'position', 'keyword'},
-                  Cassettes={'memory', 'file', 's3'}, ReplayPaths={'same', 'other'})
+                  Cassettes={'memory', 'file', 's3'}, ReplayPaths={'same', 'other'},
+                  Pres={'absent', 'sameSizeOtherBytes'} if quick else {'absent', 'sameSizeOtherBytes', 'shorter', 'identical'})
     with tlc.Scratch() as s:
         mc.write_mc(s, 'FileHandler', 'MC_C20', consts, invariants=INVS)
         r, g = tlc.dump_graph(s, 'MC_C20', 'MC_C20.cfg')
